@@ -22,6 +22,8 @@ TEMPLATES = {
     'tntnS': ['t', 'n', 't', 'n', 'S'], 'SntnS': ['S', 'n', 't', 'n', 'S'], 'tntnE': ['t', 'n', 't', 'n', 'E'],
     # a bare tag as the very last bytes of a comment, directly after another tag; multi-byte text before a tag
     'XB$': ['X', 'B', '$'], 'B$': ['B', '$'], 'SX$': ['S', 'X', '$'], 'uS': ['u', 'S'], 'uE': ['u', 'E'],
+    # a start tag that spans two lines, alone and followed by further tags in the same comment
+    'M': ['M'], 'MS': ['M', 'S'], 'MnS': ['M', 'n', 'S'], 'ME': ['M', 'E'], 'tMS': ['t', 'M', 'S'],
 }
 
 
@@ -37,6 +39,11 @@ class CommentSpec:
         for it in TEMPLATES[tmpl]:
             if it == 'S':
                 tag = b'<block name="b%d">' % k
+                self.events.append(('S', len(text), len(tag), 'b%d' % k))
+                text += tag + b' '
+                k += 1
+            elif it == 'M':         # start tag with a line break between its attributes
+                tag = b'<block name="b%d"\n   a="1">' % k
                 self.events.append(('S', len(text), len(tag), 'b%d' % k))
                 text += tag + b' '
                 k += 1
